@@ -375,8 +375,14 @@ def build_driver(ctx, drv, timeout=1500):
     return True
 
 def run_driver(ctx, drv, input_text, timeout=900, args=""):
-    """returns list of JSON objects (one per output line) or None"""
+    """returns list of JSON objects (one per output line) or None.
+    input_text may be a list of per-case input strings: if the driver process is then killed by a signal, the case at which it died is
+    searched (each candidate re-run alone) and reported as a concrete violation (a crash on a legal input), not just a broken run."""
     exe = os.path.join(BUILD, "drv_" + drv)
+    case_inputs = None
+    if isinstance(input_text, (list, tuple)):
+        case_inputs = list(input_text)
+        input_text = "".join(case_inputs)
     try:
         p = subprocess.run([exe] + (args.split() if args else []), input=input_text, capture_output=True, text=True, timeout=timeout)
     except subprocess.TimeoutExpired:
@@ -394,9 +400,27 @@ def run_driver(ctx, drv, input_text, timeout=900, args=""):
         ctx.driver_rc = p.returncode
         ctx.driver_err = p.stderr[-2000:]
         ctx.log("driver drv_%s exit code %d: %s" % (drv, p.returncode, p.stderr[-500:]))
+        if p.returncode < 0 and case_inputs and len(out) < len(case_inputs):
+            locate_crash(ctx, drv, case_inputs, len(out), args)
     else:
         ctx.driver_rc = 0
     return out
+
+def locate_crash(ctx, drv, case_inputs, answered, args=""):
+    """the driver died (signal) after answering `answered` cases: find a single case on which it dies alone"""
+    import concurrent.futures
+    cand = list(range(answered, min(len(case_inputs), answered + 256)))
+    def one(i):
+        rc, _, err = run_driver_isolated(drv, case_inputs[i], timeout=120, args=args)
+        return i, rc, err
+    with concurrent.futures.ThreadPoolExecutor(max_workers=NPROC) as ex:
+        for i, rc, err in ex.map(one, cand):
+            if rc < 0:
+                ctx.violation("%s:crash-on-input:drv_%s:signal-%d" % (ctx.pid, drv, -rc),
+                              "the process died with signal %d on this single input (case %d of the batch)" % (-rc, i),
+                              {"driver": "drv_" + drv, "input": case_inputs[i], "why": "drv_%s killed by signal %d when run on this input alone; stderr: %s" % (drv, -rc, err[-300:])})
+                return True
+    return False
 
 def run_driver_isolated(drv, input_text, timeout=120, args=""):
     """run one case in its own process; returns (rc, list of objects, stderr). rc<0 = signal"""
